@@ -229,6 +229,16 @@ def r8(ctx, prog):
             ok = len(g) == 1 and any(q.edge_holds(f, c, k, 'd_.' + ctr, '>', '0') for c, k in g)
         ctx.ob('C03.R8', '%s|mask-%s' % (f.name, name), ok, 'epoll bit %d requested iff %s > 0' % (ebit, ctr) if ok else
                'the epoll mask does not request bit %d exactly when %s > 0' % (ebit, ctr), where=f.loc(sets[0]['i'] if sets else f.body))
+    # the cached mask always equals the mask just computed from the counters (it decides ADD/MOD/DEL next time): every store to ev.events
+    # takes the variable the kind bits were OR-ed into, and every path to the exit passes one
+    maskvars = {f.path(st['ch'][0]) for st in f.stmts if st and st['k'] == 'CompoundAssignOperator' and st.get('op') == '|=' and
+                f.s(f.strip_casts(st['ch'][1])).get('cv') in (1, 4, 8)}
+    stores = [(a, rhs) for a, rhs in q.assigns(f, 'epoll_event::events')] or [(a, rhs) for a, rhs in q.assigns(f, 'events') if 'ev' in f.path(a['ch'][0])]
+    okc = len(maskvars) == 1 and bool(stores) and all(f.path(rhs) in maskvars for a, rhs in stores) and \
+        not f.cfg.exists_path(f.cfg.entry_point(), 'exit', avoid=[q.pt(f, a) for a, rhs in stores])
+    ctx.ob('C03.R8', '%s|mask-cached' % f.name, okc, 'ev.events is always set to the mask computed from the counters (%s)' % sorted(maskvars) if okc else
+           'ev.events is stored from %s: the cached mask can differ from the mask the counters give, so the next reload picks the wrong epoll_ctl operation' %
+           sorted({f.path(rhs) for a, rhs in stores}), where=f.loc(stores[-1][0]['i'] if stores else f.body))
     ctl = [st for st in f.calls() if st.get('callee') == 'epoll_ctl']
     ops = {}
     for c in ctl:
